@@ -42,6 +42,18 @@ class Gen:
             self._src_cache[rel] = extract.strip_comments(open(path).read())
         return self._src_cache[rel]
 
+    def all_src(self):
+        """{rel: comment-stripped text} of every src/*.rs of the tree under check"""
+        d = os.path.join(self.repo, 'src')
+        return {'src/' + f: self.src('src/' + f) for f in sorted(os.listdir(d)) if f.endswith('.rs')}
+
+    def default_not_overridden(self, trait, name, expected=()):
+        """the trait default `trait::name` is what runs for every implementor except the `expected` ones (impl headers, matched by
+        substring, whose overrides the unit extracts separately)"""
+        for rel, hdr in extract.trait_impl_overrides(self.all_src(), trait, name):
+            if not any(e in hdr for e in expected):
+                raise extract.Unsupported('the default method %s::%s is overridden in %s (`%s`): the override is outside the unit' % (trait, name, rel, hdr[:120]))
+
     def src_with_attrs(self, rel):
         path = os.path.join(self.repo, rel)
         if not os.path.exists(path):
